@@ -92,7 +92,9 @@ _REF_OK = [False]
 
 
 def plan(tier):
-    return {'shards': 16, 'budget_s': 32 if tier == 'quick' else 600}
+    # core.Recorder counts the budget in CPU seconds of the shard and caps wall time at 2.5x: 22 -> <= 55 s wall,
+    # 340 -> <= 14.2 min wall.  The complete case list needs about 10 s (quick) / 170 s (thorough) CPU per shard.
+    return {'shards': 16, 'budget_s': float(os.environ.get('VERIF_C17_BUDGET_S') or (22 if tier == 'quick' else 340))}
 
 
 def H(tag, i=0):
@@ -949,6 +951,9 @@ def run_batch(rec, case, gen):
         clean = True
         n = 0
         for data, origin, spec in gen(node, addr, nid):
+            if data is None:            # marker: let the maintenance task drain the pending sets before the next datagram
+                node.settle()
+                continue
             n += 1
             verdict_ok = feed(rec, node, data, sender, origin, spec)
             clean = clean and verdict_ok
@@ -1207,13 +1212,11 @@ def gen_huge(case):
         head = ping[:ping.index(b'i3e')]
         for nd in ((1, 20, 4300, 4301, 65000) if case.get('small') else
                    (1, 18, 19, 20, 100, 308, 309, 1000, 4299, 4300, 4301, 5000, 20000, 65000)):
-            digs = (b'9' * nd).hex()
             for pre, suf, what in ((b'i', b'e', 'int'), (b'i-', b'e', 'negint'), (b'', b':', 'len'), (b'l', b':xe', 'len-in-list'),
                                    (head + b'i3e', b':pinge', 'len-in-datagram'), (head + b'i3ei', b'ee', 'int-in-datagram'),
                                    (b'di', b'ei0ee', 'int-key'), (b'd', b':a', 'len-key')):
                 spec = {'rep': [pre.hex(), b'9'.hex(), nd, suf.hex()]}
                 yield materialise(spec), f'huge:{what}:{nd}-digits', spec
-            del digs
         for s in (b'-1:a', b'-0:', b'+1:a', b' 1:a', b'1 :a', b'0x1:a', b'1_0:aaaaaaaaaa', b'i e', b'i-e', b'i--1e', b'i+1e', b'i 1e',
                   b'i1 e', b'i0x10e', b'i1_0e', b'i1.5e', b'i1e5e', b'iinfe', b'inane', b'i\xd9\xa1e', b'd-1:ai1ee', b'd01:ai1ee',
                   b'di-0ei1ee', b'i00e', b'i-00e', b'00:', b'1:', b'2:a', b'99999999999999999999:', b'd1:a99999999999:xe',
@@ -1674,7 +1677,7 @@ def gen_cases(rng, tier, shard, nshards):
                                                           '192.168.100.200'][i % 6],
                    'lo': 1 + (i * 10923) % 65535, 'count': 65535 if not quick else 10923}
     # -- seeded random families, per shard
-    for j in range(2 if quick else 36):
+    for j in range(2 if quick else 48):
         yield {'fam': 'msg', 'seed': rng.getrandbits(48), 'count': 400}
         yield {'fam': 'mutn', 'node': {'seed': rng.randrange(3), 'tokens': rng.choice(modes)}, 'tseed': rng.getrandbits(30),
                'seed': rng.getrandbits(48), 'count': 700 if quick else 1500, 'sender': rng.choice(senders)}
@@ -1720,10 +1723,14 @@ def execute(rec, case):
                 R = b'r' * 20
                 ping = enc({0: 0, 1: R, 2: nid, 3: b'ping', 4: [{PV: 1}]})
                 store = enc({0: 0, 1: R, 2: nid, 3: b'store', 4: [b'h' * 48, node.valid_token(addr[0]), 4000, nid, 0, {PV: 1}]})
+                yield enc({0: 0, 1: [0] * 20, 2: nid, 3: b'ping', 4: [{PV: 1}]}), 'fixed:ping-rpc-id-is-a-list', None
+                yield None, 'settle', None
                 yield enc({0: 0, 1: R, 2: nid, 3: b'store', 4: [b'h' * 48, 7, 4000, nid, 0, {PV: 1}]}), 'fixed:store-integer-token', None
                 yield enc({0: 0, 1: R, 2: nid, 3: b'store', 4: [b'h' * 48, b't' * 47, 4001, nid, 0, {PV: 1}]}), 'fixed:store-47-byte-token', None
                 yield enc({0: 0, 1: R, 2: nid, 3: b'nope', 4: [{PV: 1}]}), 'fixed:unknown-method', None
+                yield None, 'settle', None
                 yield ping[:-1], 'fixed:ping-without-last-byte', None
+                yield None, 'settle', None
                 yield ping[:-1] + b'\x00garbage', 'fixed:ping-with-garbage-tail', None
                 yield store[:-1], 'fixed:store-without-last-byte', None
                 yield enc({0: 0, 1: [0] * 20, 2: nid, 3: b'store', 4: [b'g' * 48, node.valid_token(addr[0]), 4002, nid, 0, {PV: 1}]}), \
